@@ -109,7 +109,7 @@ theorem C14_typed_containers_fresh {E : Env} (o n : Nat) (sh : Shape) (v v' : CV
 /-! ## The copy is live -/
 
 /-- **Live.**  A value that is `Live` for object `o` (every restored or cloned
-value is: `C14_rebound`, `C14_clone_values_partial`) behaves as a state of the live
+value is: `C14_rebound`, `C14_clone_values_deep`) behaves as a state of the live
 container model: a mutation of any container in it, at any depth, that is
 ACCEPTED leaves the value live, and at a declared container it is accepted only
 if the trait of that position accepts the item (so an invalid item raises).
@@ -168,19 +168,31 @@ theorem C14_readonly_stays {E : Env} (hI : Idem E) (hC : CopyStable E) {s : Obj}
 
 /-! ## `clone_traits(copy='deep')` -/
 
-/-- **Clone, deep.**  Under `clone_traits(copy='deep')`, for every copyable
-trait whose `copy` metadata does not ask for less, whose value contains no
-detached container (see `C14_clone_values` below) : the clone holds an equal
-value, live for the clone, made only of NEW container objects. -/
-theorem C14_clone_values_partial {E : Env} (hI : Idem E) (hC : CopyStable E) {src : Slot} (hw : WFSlot E src)
+/-- **Clone, deep - values.**  Under `clone_traits(copy='deep')` (and under
+`copy="deep"` metadata with any argument, hence `copy.deepcopy`), for every
+copyable trait whose `copy` metadata does not ask for less: the clone holds an
+equal value, live for the clone, made only of NEW container objects - whatever
+the value contains, detached containers (objects that went through
+`__setstate__`) included: those could not be deep-copied before dd9f9de and
+were silently dropped (finding F71). -/
+theorem C14_clone_values_deep {E : Env} (hI : Idem E) (hC : CopyStable E) {src : Slot} (hw : WFSlot E src)
     (hc : src.decl.copyable = true) (hk : src.decl.kind ≠ .event)
     (hm : src.decl.copy = none ∨ src.decl.copy = some .deep)
-    (oS oD n : Nat) (all : Bool) (hd : NoDetached (readSlot E oS n src).1) :
+    (oS oD n : Nat) (all : Bool) :
     let r := cloneSlot E oS oD (some .deep) all n src
     ∃ w, r.1.val = some w ∧ r.1.decl = src.decl ∧ norm w = norm (readSlot E oS n src).1 ∧
       Live E oD src.decl.shape w ∧ (∀ i ∈ ids w, (readSlot E oS n src).2.2 ≤ i) ∧
       r.2.1 = (readSlot E oS n src).2.1 :=
-  cloneSlot_deep_spec hI hC hw hc hk hm oS oD n all hd
+  cloneSlot_deep_spec hI hC hw hc hk hm oS oD n all
+
+/-- Regression example, the input of finding F71: `x = Any()` holding an
+unpickled `TraitListObject`; `obj.clone_traits(copy='deep')` keeps the value. -/
+example :
+    let d : Decl := { name := "x", shape := .any }
+    let s : Obj := ⟨1, [⟨d, some (.node .lst 0 (.detached none) [] [.leaf (.int 1)])⟩]⟩
+    (cloneTraits E0 s 2 (some .deep) 1).copy.slots.map (fun sl => sl.val.isSome) = [true] ∧
+      (cloneTraits E0 s 2 (some .deep) 1).copy.slots.flatMap slotIds = [1] := by
+  decide
 
 /-- **No sharing under a deep clone.**  For `clone_traits(copy=arg)` of any
 well-formed object in which every copied trait is copied deeply (`arg = 'deep'`
@@ -221,34 +233,19 @@ example :
 
 /-! ### Clauses the pinned tree does not satisfy -/
 
-/-- Full clause: a clone holds, for every copyable trait, a value equal to the source's. -/
-def C14_clone_values : Prop :=
-  ∀ (E : Env) (s : Obj) (o' n : Nat) (arg : Option CopyMode), WFObj E s →
-    Forall2 (fun a b => a.decl.copyable = true → ∃ v w, a.val = some v ∧ b.val = some w ∧ norm w = norm v)
-      (cloneTraits E s o' arg n).orig.slots (cloneTraits E s o' arg n).copy.slots
-
-/-- Refuted (finding F15): `Trait*Object.__deepcopy__` builds
-`Trait*Object(self.trait, None, …)`; for a container that came out of
-`__setstate__` (`copy.copy`, pickle) `self.trait` is None and the constructor
-raises AttributeError, which the bare `except:` of `copy_traits` swallows - the
-value is silently dropped.  Witness: `x = Any()` holding an unpickled
-`TraitListObject`; `obj.clone_traits(copy='deep').x is None`. -/
-theorem C14_clone_values_fails_at : ¬ C14_clone_values := by
-  intro h
-  let d : Decl := { name := "x", shape := .any }
-  let s : Obj := ⟨1, [⟨d, some (.node .lst 0 (.detached none) [] [])⟩]⟩
-  have hw : WFObj E0 s := by
-    intro sl hs
-    simp only [s, List.mem_singleton] at hs
-    subst hs
-    exact ⟨.any _, fun v _ => .any v⟩
-  have := h E0 s 2 1 (some .deep) hw
-  simp only [cloneTraits, cloneL, cloneSlot, Decl.copyable, readSlot, copyValue, effMode,
-    deepcopyV, deepcopyL, s, d] at this
-  cases this with
-  | cons r _ =>
-    obtain ⟨_, _, _, hb, _⟩ := r (by simp)
-    simp at hb
+/-- **The copy mode reaches the whole graph.**  An object held by a trait that
+is copied deeply is cloned with the mode of the OUTER call: the value of one of
+ITS traits has exactly the fate the same trait would have at top level -
+referenced under `clone_traits()` / `copy=None` unless its own metadata says
+otherwise, deep only under `'deep'`, `copy.deepcopy` or `copy="deep"` metadata.
+(`clone_traits` stores its `copy` argument in the memo unconditionally; storing
+it only when it is not None makes nested objects fall back to `'deep'`.) -/
+theorem C14_nested_mode (arg childMeta : Option CopyMode) (uncopyable : Bool) :
+    nestedTraitFate (.clone arg) (some .deep) childMeta uncopyable = valueFate (effMode childMeta arg) uncopyable ∧
+    nestedTraitFate (.clone none) (some .deep) none uncopyable = .same ∧
+    nestedTraitFate .deepcopy (some .deep) childMeta false =
+      valueFate (effMode childMeta (some .deep)) false := by
+  refine ⟨rfl, rfl, rfl⟩
 
 /-- **Transient traits stay at their defaults in a clone** (`clone_traits` with
 any `copy` argument, hence also `copy.deepcopy`): a transient trait is never in
